@@ -13,7 +13,10 @@ import (
 	"testing"
 	"time"
 
+	apierrors "k8s.io/apimachinery/pkg/api/errors"
+	"k8s.io/apimachinery/pkg/runtime"
 	k8sfake "k8s.io/client-go/kubernetes/fake"
+	k8stesting "k8s.io/client-go/testing"
 	"pgregory.net/rapid"
 
 	chart "helm.sh/helm/v4/pkg/chart/v2"
@@ -282,7 +285,24 @@ func c10Canon(r *release.Release) string {
 		}
 	}
 	lb, _ := json.Marshal(lbl)
-	return string(b) + "|labels=" + string(lb)
+	// the timestamps once more, taken from the time values themselves (the JSON form above goes through Helm's own
+	// marshalling, which would hide a loss of precision from both sides of the comparison)
+	nanos := func(t helmtime.Time) int64 {
+		if t.IsZero() {
+			return 0
+		}
+		return t.UnixNano()
+	}
+	var ts []int64
+	if r.Info != nil {
+		ts = append(ts, nanos(r.Info.FirstDeployed), nanos(r.Info.LastDeployed), nanos(r.Info.Deleted))
+	}
+	for _, h := range r.Hooks {
+		if h != nil {
+			ts = append(ts, nanos(h.LastRun.StartedAt), nanos(h.LastRun.CompletedAt))
+		}
+	}
+	return string(b) + "|labels=" + string(lb) + fmt.Sprintf("|nanos=%v", ts)
 }
 
 var c10TimeKeys = map[string]bool{"first_deployed": true, "last_deployed": true, "deleted": true, "started_at": true, "completed_at": true, "generated": true}
@@ -348,8 +368,19 @@ type c10Backend struct {
 	st   *storage.Storage
 }
 
+// c10FailNextCreate, when set, makes the fake API server reject the next create request (500) before it looks at
+// anything - an overloaded or timing-out server.
+var c10FailNextCreate bool
+
 func c10World() []c10Backend {
 	cs := k8sfake.NewSimpleClientset()
+	cs.PrependReactor("create", "*", func(k8stesting.Action) (bool, runtime.Object, error) {
+		if c10FailNextCreate {
+			c10FailNextCreate = false
+			return true, nil, apierrors.NewInternalError(errors.New("injected: the server rejected the request"))
+		}
+		return false, nil, nil
+	})
 	return []c10Backend{
 		{"memory", storage.Init(driver.NewMemory())},
 		{"secret", storage.Init(driver.NewSecrets(cs.CoreV1().Secrets("default")))},
@@ -512,6 +543,24 @@ func c10Prop(t *rapid.T) {
 			for _, b := range backs {
 				if got := c10ErrClass(b.st.Create(c10Clone(again))); got != "exists" {
 					fail(fmt.Sprintf("C10:create/want-exists-got-%s/%s", got, b.name), fmt.Sprintf("key %v (identical content created again)", k))
+				}
+			}
+		},
+		"createRejectedByTheServer": func(t *rapid.T) {
+			// a create (of a stored or of a new key) that the API server rejects with an internal error: it fails, and
+			// nothing changes - in particular a record already stored under that key stays
+			k := drawKey(t)
+			proto := genRelease(k.name, k.rev).Draw(t, "rel")
+			trace = append(trace, fmt.Sprintf("create-rejected-by-server %s/%d", k.name, k.rev))
+			for _, b := range backs {
+				if b.name == "memory" {
+					continue
+				}
+				c10FailNextCreate = true
+				err := b.st.Create(c10Clone(proto))
+				c10FailNextCreate = false
+				if err == nil {
+					fail("C10:create/succeeds-although-the-server-rejected-it/"+b.name, fmt.Sprintf("key %v", k))
 				}
 			}
 		},
